@@ -32,7 +32,7 @@ pub fn c01(g: &mut G) {
             g.emit(build_line(fe, ty, geom_for(fe, i + p), mode_for(fe), &ins_calls(&kv)));
             i += 1;
         }
-        if label.starts_with("widerec") || label.starts_with("fan33") {
+        if label.starts_with("widerec") || label.starts_with("fan33") || label.starts_with("stale") || label.starts_with("dense") {
             // every cache geometry
             for (gi, geom) in GEOMS.iter().enumerate() {
                 let kv = values(keys, (i + gi) % VALUE_PATTERNS, &mut g.rng);
